@@ -86,7 +86,11 @@ impl<Key> AdmissionPolicy<Key>
             while let Ok(event) = receiver.recv() {
                 match event {
                     BufferEvent::Full(key_hashes) => {
+                        #[cfg(cached_verif)]
+                        let verif_batch = key_hashes.clone();
                         { access_frequency.write().increment_access(key_hashes); }
+                        #[cfg(cached_verif)]
+                        crate::cache::verif::emit(crate::cache::verif::Event::BatchApplied { hashes: verif_batch });
                     }
                     BufferEvent::Shutdown => {
                         info!("Received Shutdown event in AdmissionPolicy, shutting it down");
@@ -119,6 +123,15 @@ impl<Key> AdmissionPolicy<Key>
             return CommandStatus::Rejected(RejectionReason::KeyWeightIsGreaterThanCacheWeight);
         }
         let (space_left, is_enough_space_available) = self.cache_weight.is_space_available_for(key_description.weight);
+        #[cfg(cached_verif)]
+        crate::cache::verif::emit(crate::cache::verif::Event::AdmissionBegin {
+            id: key_description.id,
+            hash: key_description.hash,
+            weight: key_description.weight,
+            max_weight: self.cache_weight.get_max_weight(),
+            space_left,
+            fits: is_enough_space_available,
+        });
         if is_enough_space_available {
             self.cache_weight.add(key_description);
             return CommandStatus::Accepted;
@@ -194,8 +207,18 @@ impl<Key> AdmissionPolicy<Key>
         let mut space_available = space_left;
 
         let mut sample = self.cache_weight.sample(EVICTION_SAMPLE_SIZE, frequency_counter);
+        #[cfg(cached_verif)]
+        crate::cache::verif::emit(crate::cache::verif::Event::CreateSpace { id: key_description.id, incoming_estimate: incoming_key_access_frequency });
         while space_available < key_description.weight {
+            #[cfg(cached_verif)]
+            let verif_sample = sample.verif_snapshot();
             if let Some(sampled_key) = sample.min_frequency_key() {
+                #[cfg(cached_verif)]
+                crate::cache::verif::emit(crate::cache::verif::Event::Victim {
+                    sample: verif_sample,
+                    victim: (sampled_key.id, sampled_key.weight, sampled_key.estimated_frequency),
+                    space_available,
+                });
                 if incoming_key_access_frequency < sampled_key.estimated_frequency {
                     debug!(
                         "Rejecting key with id {} and estimated frequency {}, given its frequency is less than the sampled key with frequency {}",
@@ -205,11 +228,15 @@ impl<Key> AdmissionPolicy<Key>
                 }
 
                 self.cache_weight.delete(&sampled_key.id, delete_hook);
+                #[cfg(cached_verif)]
+                crate::cache::verif::emit(crate::cache::verif::Event::Evicted { id: sampled_key.id });
                 let (fresh_space_available, _) = self.cache_weight.is_space_available_for(key_description.weight);
 
                 space_available = fresh_space_available;
                 let _ = sample.maybe_fill_in();
             } else {
+                #[cfg(cached_verif)]
+                crate::cache::verif::emit(crate::cache::verif::Event::SampleEmpty);
                 let (_, is_enough_space_available) = self.cache_weight.is_space_available_for(key_description.weight);
                 if is_enough_space_available {
                     return CommandStatus::Accepted;
